@@ -569,10 +569,70 @@ fn unwrap_expr(e: &Expr) -> &Expr {
     }
 }
 
+thread_local! {
+    /// parameterless `fn name<T>() -> bool { <one expression over size_of> }` helpers: name -> body
+    static SIZE_PREDS: std::cell::RefCell<BTreeMap<String, Expr>> = std::cell::RefCell::new(BTreeMap::new());
+}
+
+fn collect_size_preds(file: &syn::File) {
+    fn consider(sig: &syn::Signature, block: &Block) {
+        if !sig.inputs.is_empty() || block.stmts.len() != 1 {
+            return;
+        }
+        if let Stmt::Expr(e, None) = &block.stmts[0] {
+            if toks(e).contains("size_of") && !matches!(e, Expr::If(_)) {
+                SIZE_PREDS.with(|m| m.borrow_mut().insert(sig.ident.to_string(), e.clone()));
+            }
+        }
+    }
+    for it in &file.items {
+        match it {
+            syn::Item::Fn(f) => consider(&f.sig, &f.block),
+            syn::Item::Impl(im) => {
+                for x in &im.items {
+                    if let ImplItem::Fn(f) = x {
+                        consider(&f.sig, &f.block)
+                    }
+                }
+            }
+            _ => {}
+        }
+    }
+}
+
+fn is_size_pred(name: &str) -> bool {
+    let last = name.rsplit('.').next().unwrap_or(name);
+    SIZE_PREDS.with(|m| m.borrow().contains_key(last))
+}
+
+/// a size condition with helper predicates unfolded and negations pulled out: (condition, negated)
+fn norm_cond(c: &Expr) -> (Expr, bool) {
+    match c {
+        Expr::Paren(p) => norm_cond(&p.expr),
+        Expr::Unary(u) if matches!(u.op, syn::UnOp::Not(_)) => {
+            let (e, n) = norm_cond(&u.expr);
+            (e, !n)
+        }
+        Expr::Call(call) if call.args.is_empty() => {
+            if let Expr::Path(p) = &*call.func {
+                if let Some(seg) = p.path.segments.last() {
+                    let body = SIZE_PREDS.with(|m| m.borrow().get(&seg.ident.to_string()).cloned());
+                    if let Some(b) = body {
+                        return norm_cond(&b);
+                    }
+                }
+            }
+            (c.clone(), false)
+        }
+        _ => (c.clone(), false),
+    }
+}
+
 fn ptree_of_expr(e: &Expr) -> Option<PT> {
     let e = unwrap_expr(e);
     if let Expr::If(i) = e {
-        if toks(&i.cond).contains("size_of") {
+        let (cond, neg) = norm_cond(&i.cond);
+        if toks(&cond).contains("size_of") {
             let t = ptree_of_stmts(&i.then_branch.stmts);
             let el = match &i.else_branch {
                 Some((_, eb)) => match &**eb {
@@ -581,9 +641,10 @@ fn ptree_of_expr(e: &Expr) -> Option<PT> {
                 },
                 None => PT::Leaf(vec![]),
             };
-            return Some(match size_cond(&i.cond) {
+            let (t, el) = if neg { (el, t) } else { (t, el) };
+            return Some(match size_cond(&cond) {
                 Some((op, rhs)) => PT::If(op, rhs, Box::new(t), Box::new(el)),
-                None => PT::Unsupported(toks(&i.cond)),
+                None => PT::Unsupported(toks(&cond)),
             });
         }
     }
@@ -616,7 +677,7 @@ fn find_dispatches(b: &Block, out: &mut Vec<PT>) {
     }
     impl<'a, 'ast> syn::visit::Visit<'ast> for V<'a> {
         fn visit_expr_if(&mut self, i: &'ast syn::ExprIf) {
-            if toks(&i.cond).contains("size_of") {
+            if toks(&norm_cond(&i.cond).0).contains("size_of") {
                 if let Some(t) = ptree_of_expr(&Expr::If(i.clone())) {
                     self.out.push(t);
                     return;
@@ -755,6 +816,9 @@ fn main() {
     fs::write(format!("{}/Gen_Skel.v", out), skel).unwrap();
 
     // ---------------- Gen_Ptr.v
+    for f in ["pointer.rs", "lib.rs", "future.rs"] {
+        collect_size_preds(&parsed[f]);
+    }
     let mut ptr = String::new();
     writeln!(ptr, "(* generated by kx from /repo/src - do not edit *)\nFrom Coq Require Import String List.\nFrom KV Require Import PtrBase.\nImport ListNotations.\nOpen Scope string_scope.\n").unwrap();
     let mut prow: Vec<String> = vec![];
@@ -762,6 +826,9 @@ fn main() {
         let mut funcs = vec![];
         collect_funcs(&parsed["pointer.rs"], &mut funcs);
         for fun in &funcs {
+            if is_size_pred(&fun.name) {
+                continue;
+            }
             let t = ptree_of_stmts(&fun.block.stmts);
             prow.push(format!("  ({}, {})", coq_str(&format!("pointer.{}", fun.name)), coq_ptree(&t)));
         }
